@@ -763,6 +763,67 @@ def interp_2d(chk, drv):
     chk.notes['solver_contract']['2-D largest ratios'] = stats
 
 
+def reuse_sequences(chk):
+    """the interpolant depends on the data of THIS call only: splines and interpolators are re-used (as in every time step /
+    mode loop of the code), with data containing exact zeros — a vector of zeros after non-zero data, 2-D data with zero rows/columns"""
+    from pygyro.splines.splines import Spline1D, Spline2D
+    from pygyro.splines.spline_interpolators import SplineInterpolator1D, SplineInterpolator2D
+    rng = chk.rng
+    for it in range(chk.n(24, 200)):
+        per = rng.random() < 0.5
+        sp = gen_space(rng, per=per, kind=rng.choice(['cu', 'uniform', 'dyadic', 'random']) if True else None, maxcells=8)
+        cplx = (not per) and rng.random() < 0.3
+        dtype = complex if cplx else float
+        mask = np.array([rng.random() < 0.5 for _ in range(sp.nb)])
+        seq = [gen_data(rng, sp.nb, 'normal'), np.zeros(sp.nb), gen_data(rng, sp.nb, 'normal') * mask, np.zeros(sp.nb)]
+        xs = np.asarray(sp.basis.greville, dtype=float)
+        try:
+            itp = SplineInterpolator1D(sp.basis, dtype) if cplx else SplineInterpolator1D(sp.basis)
+            spl = Spline1D(sp.basis, dtype) if cplx else Spline1D(sp.basis)
+            for k, u in enumerate(seq):
+                u = u.astype(dtype) * ((1 + 0.5j) if cplx else 1)
+                itp.compute_interpolant(u, spl)
+                vals = np.array([spl.eval(float(x)) for x in xs])
+                scale = max(1.0, float(np.abs(u).max()))
+                if not np.all(np.abs(vals - u) <= 1e-9 * scale * sp.nb):
+                    chk.fail('C08:reuse-1d', 're-using a spline/interpolator: the interpolant of call %d does not take the data of that call '
+                             '(e.g. zero data after non-zero data)' % k, {'space': sp.desc(), 'call': k, 'data': [complex(x) if cplx else float(x) for x in u]},
+                             actual=[complex(v) if cplx else float(v) for v in vals])
+                    break
+        except Exception as e:  # noqa: BLE001
+            chk.fail('C08:reuse-raises', 'interpolating a sequence of data sets raised %s: %s' % (type(e).__name__, e), {'space': sp.desc()})
+        chk.case(('reuse1d', it, per, cplx), nontrivial=True)
+        chk.count('re-use sequences 1-D')
+    for it in range(chk.n(12, 100)):
+        per1, per2 = rng.random() < 0.5, rng.random() < 0.5
+        k = ['uniform', 'dyadic', 'random']
+        s1 = gen_space(rng, per=per1, kind=rng.choice(k), maxcells=6, allow_min=False)
+        s2 = gen_space(rng, per=per2, kind=rng.choice(k), maxcells=6, allow_min=False)
+        if s1.cu != s2.cu:
+            continue
+        U = gen_data(rng, s1.nb * s2.nb, 'normal').reshape(s1.nb, s2.nb)
+        U[rng.randrange(1, s1.nb):, :] = 0.0            # exact zero rows after non-zero ones
+        if rng.random() < 0.5:
+            U[:, rng.randrange(s2.nb)] = 0.0
+        try:
+            itp = SplineInterpolator2D(s1.basis, s2.basis)
+            spl = Spline2D(s1.basis, s2.basis)
+            for rep in range(2):
+                itp.compute_interpolant(U if rep == 0 else U[::-1].copy(), spl)
+            Ulast = U[::-1]
+            x1 = np.asarray(s1.basis.greville, dtype=float)
+            x2 = np.asarray(s2.basis.greville, dtype=float)
+            ev = np.array([[spl.eval(float(a), float(b)) for b in x2] for a in x1])
+            if not np.all(np.abs(ev - Ulast) <= 1e-8 * max(1.0, float(np.abs(U).max())) * s1.nb * s2.nb):
+                chk.fail('C08:reuse-2d', '2-D data with exactly-zero rows / a second call on the same objects: the interpolant does not take its data',
+                         {'space1': s1.desc(), 'space2': s2.desc(), 'u': Ulast.tolist()}, actual=ev.tolist())
+        except Exception as e:  # noqa: BLE001
+            chk.fail('C08:reuse-raises', '2-D interpolation of data with zero rows raised %s: %s' % (type(e).__name__, e),
+                     {'space1': s1.desc(), 'space2': s2.desc()})
+        chk.case(('reuse2d', it), nontrivial=True)
+        chk.count('re-use sequences 2-D')
+
+
 def run(chk):
     common.use_repo(sim_mpi=False)
     chk.rule = ('spaces: degree 1-5, clamped/periodic, uniform (cubic fast path and general path), dyadic non-uniform, random '
@@ -778,6 +839,7 @@ def run(chk):
         complex_1d(chk, drv)
         polynomials(chk, drv)
         interp_2d(chk, drv)
+        reuse_sequences(chk)
     finally:
         drv.close()
     chk.assumptions = [
